@@ -190,6 +190,9 @@ def run(cx: Cx):
         cx.inconclusive('R-GUARD', '_run_model_for_batch returns', f"branches found: {sorted(seen)}", where=cx.where(runf), function=runf.qualname)
 
     check_no_swallow(cx, [BR, RUN, BATCH + '_build_model_from_kwargs'])
+    # the work list is ParameterList.build(): every combination once, as independent dictionaries (C14's build rules)
+    from .c14 import check_build
+    check_build(cx)
     check_atomic(cx, BR, ['AttributeError'], must_have=True)
     # the collectors argument is validated before any work
     from sa.terms import AIs as _AIs, AIsInst, f_or, compare
